@@ -26,6 +26,11 @@ RULE = ('(matrix) Hypothesis draws an operation (copy [optionally onto another p
         '(substream) for multi-phase streams the phase sub-streams ms[phase] (handed out before or after the '
         'operation) must show and write the stream\'s row, T and P after link_with (8 flag subsets), unlink, '
         'copy_like, copy, flow_proxy. '
+        '(link_views) one link_with (8 flag subsets) between two streams of one kind (single-phase streams in '
+        'independently drawn phases), mass/vol views read before and after in both orders: exactly the selected parts '
+        'are shared, and the mass and volumetric views of BOTH members equal those of a fresh stream at the member\'s '
+        'own flows, phase, T, P, also after a later change of the other stream and after unlink. (proxy) also reads '
+        'H, S, C, rho, F_vol of one separated stream, changes and reads the other, re-reads the first. '
         '(links) histories of 1-30 steps over 2-7 streams of one kind and package: proxy, flow_proxy, copy, link_with '
         '(all 8 flag subsets), unlink, copy_like, copy_thermal_condition, copy_phase, flow/T/P/phase writes; reference '
         'model = sharing cells (flow cell, TP cell, phase cell) with values; after every step every stream shows the '
@@ -33,7 +38,10 @@ RULE = ('(matrix) Hypothesis draws an operation (copy [optionally onto another p
         'streams in the same cell; a final sweep writes a unique value through every cell. '
         '(pickle) Stream/MultiStream built through the constructor with price and characterization factors, '
         'Reaction/ParallelReaction/SeriesReaction/ReactionSystem/ReactionItem (mol/wt, with and without phases), '
-        'Chemical (three phase_ref, locked phase, user-defined), Thermo/IdealThermo (Gamma/PCF/mixture options): '
+        'Chemical and Thermo/IdealThermo built FRESH inside the case from drawn arguments (database chemical x '
+        'phase_ref s/l/g/default, locked phase, user-defined; N_solutes None/0..3; Gamma/PCF/mixture options; 1-5 '
+        'chemicals per package), compared field by field directly and inside the unpickled package, incl. '
+        'heavy-solute data and a V=0.3 flash: '
         'pickle.loads(pickle.dumps(o, protocol 2..5)) shows equal observable state and equal behaviour at probe '
         'points. Non-trivial: non-empty source (matrix), a history with >=1 structural operation and >=1 write, a '
         'pickle of a non-empty object. Distinct by operation, kinds, phase labels, packages, zero pattern, flags / '
@@ -45,7 +53,11 @@ ASSUMPTIONS = ['the target package defines every chemical that has a non-zero fl
                'link_with(flow/phase) and unlink on a member of a proxy alias group (streams sharing one indexer object) are not generated in histories: '
                'what the other alias should then share is not stated; the unlink case is covered by the stateless proxy check',
                'pickle domain: objects as constructed (no groups/aliases added afterwards); user models given as lambdas are not picklable by design and not generated',
-               'streams are created with ID=None; the ID is compared after a round trip as a separate, last clause']
+               'streams are created with ID=None; the ID is compared after a round trip in a separate property function',
+               'N_solutes has no constructor argument; it is set through its public attribute right after construction and counted as construction state',
+               'volumetric views are read after a one-kelvin re-evaluation when a phase label was written earlier in the history, so that the known '
+               'finding C11-F1 (vol keeps the previous phase\'s molar volumes until T or P changes) is not re-reported here',
+               'views and derived properties are compared with those of a fresh stream at the same observable state (value or exception type)']
 REQUIRED_CELLS = {'quick': ['m:copy_like:tgt=S,src=S', 'm:copy_like:tgt=S,src=M1', 'm:copy_like:tgt=S,src=M',
                             'm:copy_like:tgt=M1,src=S', 'm:copy_like:tgt=M,src=S', 'm:copy_like:tgt=M,src=M',
                             'm:copy_like:tgt=M,src=M1', 'm:copy_like:tgt=M1,src=M', 'm:copy_like:tgt=M1,src=M1',
@@ -60,7 +72,9 @@ REQUIRED_CELLS = {'quick': ['m:copy_like:tgt=S,src=S', 'm:copy_like:tgt=S,src=M1
                             'm:copy_like:tgt=S,src=V', 'm:copy_like:tgt=M,src=V', 'p:stream-id:S', 'p:stream-id:M',
                             'p:stream:S', 'p:stream:M', 'p:rxn:Reaction', 'p:rxn:ParallelReaction',
                             'p:rxn:SeriesReaction', 'p:rxn:ReactionSystem', 'p:chem:ref=s', 'p:chem:ref=l',
-                            'p:chem:ref=g', 'p:chem:locked', 'p:thermo:Thermo', 'p:thermo:IdealThermo'],
+                            'p:chem:ref=g', 'p:chem:locked', 'p:chem:user', 'p:chem:N_solutes=set', 'p:thermo:Thermo',
+                            'p:thermo:IdealThermo', 'p:thermo:locked', 'p:thermo:N_solutes=set', 'p:thermo:flash',
+                            'k:S,different-phase,flags=101', 'l:op=read_views'],
                   'thorough': []}
 
 ALL = list(vs.ALL_PHASES)
@@ -169,6 +183,62 @@ def overwrite(s, how, salt):
     s.P = s.P * 1.25 + salt
     if not isinstance(s, tmo.MultiStream):
         s.phase = ALL[(ALL.index(s.phase) + 1 + int(salt)) % len(ALL)]
+
+
+PROP_NAMES = ('H', 'S', 'C', 'rho', 'F_vol')
+
+
+def read_props(s):
+    """Derived thermodynamic properties a stream reports (value or the exception type)."""
+    out = {}
+    for n in PROP_NAMES:
+        try: out[n] = float(getattr(s, n))
+        except Exception as e: out[n] = 'exc:' + type(e).__name__
+    return out
+
+
+def fresh_like(state, th):
+    """A new, unshared stream at the observable state ``state`` (a snap() dict) on package ``th``."""
+    cas = list(th.chemicals.CASs)
+    phases = list(state['phases'])
+    rows = [[float(state['rows'][p].get(c, 0.0)) for c in cas] for p in phases]
+    if state['cls'] == 'Stream':
+        return tmo.Stream(None, flow=rows[0], phase=phases[0], T=state['T'], P=state['P'], thermo=th)
+    return tmo.MultiStream(None, flow=rows, phases=tuple(phases), T=state['T'], P=state['P'], thermo=th)
+
+
+def close_value(a, b, rtol=1e-9):
+    if isinstance(a, str) or isinstance(b, str): return a == b
+    if a != a or b != b: return a != a and b != b
+    return a == b or abs(a - b) <= rtol * max(abs(a), abs(b))
+
+
+def props_diff(got, want):
+    return [f'{k}: {got[k]!r} want {want[k]!r}' for k in want if not close_value(got[k], want[k])]
+
+
+def read_views(s):
+    """Mass and volumetric flow views of a stream as dense arrays (or the exception type)."""
+    out = {}
+    multi = isinstance(s, tmo.MultiStream)
+    for n in ('mass', 'vol'):
+        try:
+            v = getattr(s, 'i' + n).data if multi else getattr(s, n)
+            out[n] = np.asarray(v.to_array(), float)
+        except Exception as e:
+            out[n] = 'exc:' + type(e).__name__
+    return out
+
+
+def views_diff(got, want, rtol=1e-12):
+    bad = []
+    for k in want:
+        g, w = got[k], want[k]
+        if isinstance(g, str) or isinstance(w, str):
+            if not (isinstance(g, str) and isinstance(w, str) and g == w): bad.append(f'{k}: {g} want {w}')
+        elif g.shape != w.shape or not np.allclose(g, w, rtol=rtol, atol=0.0, equal_nan=True):
+            bad.append(f'{k}: {g.tolist()} want {w.tolist()}')
+    return bad
 
 
 def expect_rows(src_rows, tgt_phases_after):
@@ -461,11 +531,20 @@ def prop_proxy(ch, ctx):
         ctx.check(snap(u) == bu and snap(o) == bo, f'{site2}|{region2}|values-changed', 'unlink changed observable values')
         f, t, ph = shares(u, o)
         ctx.check(not f and not t and not ph, f'{site2}|{region2}|still-shared', f'after unlink: flow {f} TP {t} phase {ph}')
-        ctx.call(site2 + '.overwrite', overwrite, u, how, 3.0, region=region2)
-        ctx.check(snap(o) == bo, f'{site2}|{region2}|still-shared', 'a write to the unlinked stream reached its former partner')
-        bu = snap(u)
-        ctx.call(site2 + '.overwrite', overwrite, o, how, 4.0, region=region2)
-        ctx.check(snap(u) == bu, f'{site2}|{region2}|still-shared', 'a write to the former partner reached the unlinked stream')
+        # derived properties are observable state as well: evaluate one side, change and evaluate the other, re-read
+        th = s.thermo
+        for k, (x, y) in enumerate(((u, o), (o, u))):
+            py = read_props(y)
+            d = props_diff(py, read_props(fresh_like(snap(y), th)))
+            ctx.check(not d, f'{site2}|{region2}|derived-mismatch', lambda: 'after unlink: ' + '; '.join(d))
+            by = snap(y)
+            ctx.call(site2 + '.overwrite', overwrite, x, how, 3.0 + k, region=region2)
+            ctx.check(snap(y) == by, f'{site2}|{region2}|still-shared',
+                      'a write to one of the separated streams reached the other')
+            d = props_diff(read_props(x), read_props(fresh_like(snap(x), th)))
+            ctx.check(not d, f'{site2}|{region2}|derived-stale', lambda: 'changed stream: ' + '; '.join(d))
+            d = props_diff(read_props(y), py)
+            ctx.check(not d, f'{site2}|{region2}|derived-leak', lambda: 'untouched stream after its former partner changed: ' + '; '.join(d))
 
 
 # ---------------------------------------------------------------------------
@@ -526,6 +605,72 @@ def prop_substream(ch, ctx):
     check_views(ctx, x, site, region, partner, salt=1.0)
     if partner is not None and op != 'flow_proxy':
         check_views(ctx, partner, site + '.partner', region, x, salt=2.0)
+
+
+# ---------------------------------------------------------------------------
+# (1d) link_with, stateless: exactly the selected parts, and the derived views of both members
+# ---------------------------------------------------------------------------
+def check_member_views(ctx, x, th, site, region, who):
+    got = ctx.call(site, read_views, x, region=region)
+    want = read_views(fresh_like(snap(x), th))
+    d = views_diff(got, want)
+    ctx.check(not d, f'{site}|{region}|view-mismatch:{who}',
+              lambda: f'{who} (phases {vs.phases_of(x)}, T={x.T}, P={x.P}): ' + '; '.join(d))
+    if not isinstance(got['mass'], str):
+        mass = vs.dense(x) * np.asarray(th.chemicals.MW, float)
+        ctx.check(np.allclose(got['mass'].reshape(mass.shape), mass, rtol=1e-12, atol=0.0),
+                  f'{site}|{region}|mass-view-mismatch:{who}', 'mass view is not mol*MW')
+
+
+def prop_link_views(ch, ctx):
+    kind = ch.choice('kind', ['S', 'S', 'S', 'M', 'M1'])
+    pkg = ch.choice('pkg', list(chem.PACKAGES))
+    flags = ch.int('flags', 0, 7)
+    flow, phase, TP = bool(flags & 4), bool(flags & 2), bool(flags & 1)
+    pre = ch.choice('pre_read', ['none', 'linked', 'other', 'both'])
+    first = ch.choice('first', ['linked', 'other'])
+    a_spec = draw_stream(ch, 'a', kind, pkg)
+    b_spec = draw_stream(ch, 'b', kind, pkg, phases=None if kind == 'S' else a_spec['phases'])
+    th = thermo_for(pkg)
+    a = build(a_spec); b = build(b_spec)     # a.link_with(b): a is the linked stream, b the other
+    region = f'kind={kind},flags={flags:03b},samephase={int(a_spec["phases"] == b_spec["phases"])}'
+    site = 'link'
+    ctx.cell(f'k:flags={flags:03b}'); ctx.cell('k:kind=' + kind)
+    if kind == 'S' and a_spec['phases'] != b_spec['phases']: ctx.cell(f'k:S,different-phase,flags={flags:03b}')
+    ctx.nontriv(['link', kind, flags, pre, first, skey(a_spec), skey(b_spec)])
+    if pre in ('linked', 'both'): read_views(a)
+    if pre in ('other', 'both'): read_views(b)
+    a0, b0 = snap(a), snap(b)
+    ctx.call(site, a.link_with, b, flow, phase, TP, region=region)
+    def expected():
+        bb = snap(b)
+        want = dict(a0)
+        if flow:
+            want['rows'] = dict(zip(a0['phases'], bb['rows'].values()))
+        if phase and kind == 'S':
+            want['phases'] = bb['phases']; want['rows'] = dict(zip(bb['phases'], want['rows'].values()))
+        if TP: want['T'], want['P'] = bb['T'], bb['P']
+        return want
+    ctx.check(snap(b) == b0, f'{site}|{region}|other-modified', 'link_with changed the stream linked to')
+    ctx.check(snap(a) == expected(), f'{site}|{region}|state-mismatch', lambda: f'{snap(a)} want {expected()}')
+    f, t, p = shares(a, b)
+    ctx.check(f == flow and t == TP and (p is None or p == phase), f'{site}|{region}|identity-mismatch',
+              f'shared flow {f} TP {t} phase {p}')
+    order = (('linked', a), ('other', b)) if first == 'linked' else (('other', b), ('linked', a))
+    for who, x in order: check_member_views(ctx, x, th, site + '.views', region, who)
+    # later changes of the other stream travel through the selected parts only; views follow their own stream
+    names = names_of(pkg)
+    if kind == 'S': b.imol[names[0]] = 20.0
+    else: b.imol[b.phases[0], names[0]] = 20.0
+    b.T = b.T + 10.0
+    a0 = dict(a0, rows={q: dict(r) for q, r in a0['rows'].items()})
+    ctx.check(snap(a) == expected(), f'{site}|{region}|state-mismatch:after-change', lambda: f'{snap(a)} want {expected()}')
+    for who, x in order: check_member_views(ctx, x, th, site + '.views', region + ',changed=1', who)
+    if kind == 'S' and ch.bool('unlink'):
+        st = snap(a)
+        ctx.call(site + '.unlink', a.unlink, region=region)
+        ctx.check(snap(a) == st and shares(a, b) == (False, False, False), f'{site}.unlink|{region}|mismatch', 'unlink after link_with')
+        for who, x in order: check_member_views(ctx, x, th, site + '.unlink.views', region, who)
 
 
 # ---------------------------------------------------------------------------
@@ -614,6 +759,32 @@ def prop_links(ch, ctx):
                 'copy_thermal_condition', 'set_flow', 'set_flows', 'empty', 'set_T', 'set_P']
     if w.kind == 'S': base_ops += ['set_phase', 'set_phase', 'copy_phase']
     else: base_ops += ['read_sub', 'read_sub', 'write_sub']
+    base_ops += ['read_views', 'read_views']
+    th = thermo_for(pkg)
+    phase_written = False
+    def views_of(i, site):
+        # the mass / volumetric views of every member must be those of its own flows, phase, T and P
+        s = w.real[i]
+        T, P = w.TP[w.t[i]]
+        if w.kind == 'S' and phase_written:
+            # C11-F1 (known): vol keeps the molar volumes of the previous phase until T or P changes;
+            # re-evaluate at a neighbouring temperature first so that only the binding to the phase is judged
+            s.T = T + 1.0; read_views(s); s.T = T
+            ctx.cell('l:read_views:refreshed')
+        got = ctx.call(site, read_views, s, region=region)
+        labels = (w.PH[w.p[i]],) if w.kind == 'S' else tuple(w.phases)
+        state = {'cls': 'Stream' if w.kind == 'S' else 'MultiStream', 'phases': labels, 'T': T, 'P': P,
+                 'rows': {q: dict(zip(th.chemicals.CASs, row)) for q, row in zip(labels, w.F[w.f[i]].tolist())}}
+        want = read_views(fresh_like(state, th))
+        mass = w.F[w.f[i]] * np.asarray(th.chemicals.MW, float)
+        if not isinstance(got['mass'], str):
+            g = got['mass'].reshape(mass.shape)
+            if not np.allclose(g, mass, rtol=1e-12, atol=0.0):
+                ctx.fail(f'{site}|{region}|mass-view-mismatch', f'stream {i}: {g.tolist()} want mol*MW {mass.tolist()}')
+        d = views_diff(got, want)
+        if d:
+            ctx.fail(f'{site}|{region}|view-mismatch', f'stream {i} (phase {labels}, T={T}, P={P}): ' + '; '.join(d))
+
     nsteps = ch.int('nsteps', 1, 30)
     for step in range(nsteps):
         N = len(w.real)
@@ -649,10 +820,13 @@ def prop_links(ch, ctx):
             ctx.call(site, s.link_with, w.real[j], flow, phase, TP, region=region + f',flags={flags:03b}')
             if flow: w.f[i] = w.f[j]
             if TP: w.t[i] = w.t[j]
-            if phase and w.kind == 'S': w.p[i] = w.p[j]
+            if phase and w.kind == 'S': w.p[i] = w.p[j]; phase_written = True
             if (flow or TP) and w.sub_read[i]: w.dirty[i] = True
             ctx.cell(f'l:link={flags:03b}')
             structural += 1
+            order = ch.choice(f'{step}.views', ['none', 'ij', 'ji'])
+            if order != 'none':
+                for k in ((i, j) if order == 'ij' else (j, i)): views_of(k, site + '.views')
         elif op == 'unlink':
             if len(w.alias_group(i)) > 1:
                 ctx.cell('avoided:unlink-on-proxy-alias'); continue
@@ -668,8 +842,10 @@ def prop_links(ch, ctx):
             ctx.call(site, getattr(s, op), o, region=region)
             if op == 'copy_like': w.F[w.f[i]][...] = w.F[w.f[j]]
             if op in ('copy_like', 'copy_thermal_condition'): w.TP[w.t[i]][:] = w.TP[w.t[j]]
-            if op in ('copy_like', 'copy_phase') and w.kind == 'S': w.PH[w.p[i]] = w.PH[w.p[j]]
+            if op in ('copy_like', 'copy_phase') and w.kind == 'S': w.PH[w.p[i]] = w.PH[w.p[j]]; phase_written = True
             writes += 1
+        elif op == 'read_views':
+            views_of(i, site)
         elif op in ('read_sub', 'write_sub'):
             # phase sub-streams are another way to observe (and write) the flows, T and P of a multi-phase stream
             row = ch.int(f'{step}.row', 0, len(w.phases) - 1)
@@ -725,7 +901,7 @@ def prop_links(ch, ctx):
             v = ch.choice(f'{step}.v', ALL)
             def f(): s.phase = v
             ctx.call(site, f, region=region)
-            w.PH[w.p[i]] = v; writes += 1
+            w.PH[w.p[i]] = v; writes += 1; phase_written = True
         ctx.cell('l:op=' + op)
         opnames.append(op)
         check_world(ctx, w, site, region)
@@ -929,17 +1105,62 @@ def prop_pickle_reaction(ch, ctx):
 
 
 # -- chemicals ----------------------------------------------------------------
+# Every pickle case builds FRESH Chemical objects from drawn arguments (cache=False): compiling a package
+# writes into its chemicals (e.g. N_solutes of heavy chemicals), so shared objects would make a case depend
+# on what ran before it.
 CHEM_FIELDS = ('ID', 'CAS', 'MW', 'Tm', 'Tb', 'Tc', 'Pc', 'Vc', 'omega', 'Hf', 'S0', 'LHV', 'HHV', 'Hfus', 'Sfus',
-               'phase_ref', 'locked_state', 'formula', 'iupac_name', 'common_name', 'Tt', 'Pt', 'dipole', 'atoms',
-               'N_solutes', 'synonyms', 'InChI', 'smiles', 'PubChem')
+               'phase_ref', 'locked_state', 'N_solutes', 'formula', 'iupac_name', 'common_name', 'Tt', 'Pt', 'dipole',
+               'atoms', 'synonyms', 'InChI', 'InChI_key', 'smiles', 'pubchemid', 'similarity_variable',
+               'iscyclic_aliphatic', 'combustion', 'eos')
 PHASE_FUNCS = ('H', 'S', 'Cn', 'V', 'mu', 'kappa', 'H_excess', 'S_excess')
 T_FUNCS = ('Psat', 'Hvap', 'sigma', 'epsilon')
+DB_NAMES = list(chem.U_A) + ['Glucose', 'LacticAcid', 'N2', 'O2', 'CO2', 'NaCl']
+NATURAL_LOCK = {'Glucose': 's', 'LacticAcid': 'l', 'N2': 'g', 'O2': 'g', 'CO2': 'g', 'NaCl': 's'}
+
+
+def draw_chemical_args(ch, tag, names=DB_NAMES, allow_user=True):
+    """Drawn constructor arguments of one chemical (JSON-able dict)."""
+    variant = ch.choice(f'{tag}.variant', ['ref', 'ref', 'locked', 'user'] if allow_user else ['ref', 'ref', 'locked'])
+    a = {'variant': variant}
+    if variant == 'user':
+        a['ID'] = 'User' + tag.replace('.', '')
+        a['phase'] = ch.choice(f'{tag}.phase', ['s', 'l', 'g', None])
+        a['MW'] = ch.float(f'{tag}.MW', 10., 500.)
+        a['Hf'] = ch.float(f'{tag}.Hf', -1e6, 1e5)
+        if a['phase'] is None:
+            a['Tb'] = ch.float(f'{tag}.Tb', 300., 450.)
+            a['phase_ref'] = ch.choice(f'{tag}.phase_ref', ['s', 'l', 'g'])
+    else:
+        a['ID'] = ch.choice(f'{tag}.name', list(names))
+        if variant == 'locked':
+            nat = NATURAL_LOCK.get(a['ID'])
+            a['phase'] = nat if (nat and ch.int(f'{tag}.natural', 0, 3)) else ch.choice(f'{tag}.phase', ['s', 'l', 'g'])
+        else:
+            a['phase_ref'] = ch.choice(f'{tag}.phase_ref', ['s', 'l', 'g', None])
+    a['N_solutes'] = ch.choice(f'{tag}.N_solutes', [None, None, 0, 1, 2, 3])
+    return a
+
+
+def make_chemical(a):
+    if a['variant'] == 'user':
+        kw = dict(search_db=False, default=True, MW=a['MW'], Hf=a['Hf'])
+        if a['phase']: kw['phase'] = a['phase']
+        else: kw.update(Tb=a['Tb'], phase_ref=a['phase_ref'])
+    elif a['variant'] == 'locked':
+        kw = dict(phase=a['phase'])
+    else:
+        kw = dict(phase_ref=a['phase_ref']) if a['phase_ref'] else {}
+    c = tmo.Chemical(a['ID'], cache=False, **kw)
+    if a['N_solutes'] is not None: c.N_solutes = a['N_solutes']   # settable attribute only; no constructor argument exists
+    return c
 
 
 def chem_state(c, phase, T, P):
     out = {}
     for f in CHEM_FIELDS:
-        try: out[f] = getattr(c, f)
+        try:
+            v = getattr(c, f)
+            out[f] = type(v).__name__ if f == 'eos' else v
         except Exception as e: out[f] = 'exc:' + type(e).__name__
     out['aliases'] = sorted(c.aliases) if hasattr(c, 'aliases') else None
     for grp in ('Dortmund', 'UNIFAC', 'PSRK', 'NIST'):
@@ -959,137 +1180,178 @@ def chem_state(c, phase, T, P):
     return out
 
 
-def prop_pickle_chemical(ch, ctx):
-    rt = roundtrip(ch)
-    variant = ch.choice('variant', ['ref', 'ref', 'locked', 'user'])
-    T = ch.float('T', 250., 500.); P = ch.float('P', 1e4, 1e7)
-    phase = ch.choice('probe.phase', ['s', 'l', 'g'])
-    if variant == 'ref':
-        name = ch.choice('name', list(chem.U_A))
-        ref = ch.choice('phase_ref', ['s', 'l', 'g'])
-        c = chem.chemical(name, phase_ref=ref)
-        ctx.cell('p:chem:ref=' + ref)
-        region = f'variant=ref,phase_ref={ref}'
-    elif variant == 'locked':
-        name, ph = ch.choice('name', [['N2', 'g'], ['O2', 'g'], ['CO2', 'g'], ['Glucose', 's'], ['NaCl', 's'],
-                                      ['LacticAcid', 'l'], ['Water', 'l'], ['Ethanol', 'g']])
-        c = chem.chemical(name, phase=ph)
-        ctx.cell('p:chem:locked')
-        region = f'variant=locked,phase={ph}'
-    else:
-        ph = ch.choice('phase', ['s', 'l', 'g', None])
-        MW = ch.float('MW', 10., 500.)
-        kw = dict(search_db=False, default=True, MW=MW, Hf=ch.float('Hf', -1e6, 1e5))
-        if ph: kw['phase'] = ph
-        else: kw.update(Tb=ch.float('Tb', 300., 450.), phase_ref=ch.choice('phase_ref', ['s', 'l', 'g']))
-        c = ctx.call('construct.chemical', tmo.Chemical, 'UserChem' + str(ph), region='variant=user', **kw)
-        ctx.cell('p:chem:user')
-        region = f'variant=user,phase={ph}'
-    st0 = chem_state(c, phase, T, P)
-    o = ctx.call('pickle.chemical', rt, c, region=region)
-    ctx.check(type(o) is tmo.Chemical, f'pickle.chemical|{region}|class-mismatch', type(o).__name__)
-    st1 = chem_state(o, phase, T, P)
-    bad = [k for k in st0 if not same_value(st0[k], st1[k])]
-    ctx.check(not bad, f'pickle.chemical|{region}|state-mismatch',
-              lambda: '; '.join(f'{k}: {st1[k]!r} vs {st0[k]!r}' for k in bad[:4]))
-    ctx.check(chem_state(c, phase, T, P) == st0 or not [k for k in st0 if not same_value(st0[k], chem_state(c, phase, T, P)[k])],
-              f'pickle.chemical|{region}|source-modified', 'pickling changed the chemical')
-    # the unpickled chemical compiles into a package together with an ordinary one
-    if ch.bool('compile'):
-        other = chem.chemical('Water') if c.CAS != '7732-18-5' else chem.chemical('Ethanol')
-        def f():
-            cs = tmo.Chemicals([rt(c), other]); cs.compile(skip_checks=True)
-            return tuple(cs.CASs)
-        cas = ctx.call('pickle.chemical.compile', f, region=region)
-        ctx.check(cas == (c.CAS, other.CAS), f'pickle.chemical|{region}|compile-mismatch', str(cas))
-    ctx.nontriv(['pchem', variant, c.ID, st0['phase_ref'], st0['locked_state'], phase])
+def state_diff(st0, st1):
+    return [f'{k}: {st1[k]!r} vs {st0[k]!r}' for k in st0 if not same_value(st0[k], st1[k])]
 
 
 def same_value(a, b):
     if isinstance(a, float) and isinstance(b, float):
         return a == b or (a != a and b != b)
-    return a == b
+    try:
+        return bool(a == b)
+    except Exception:
+        return repr(a) == repr(b)
+
+
+def prop_pickle_chemical(ch, ctx):
+    rt = roundtrip(ch)
+    T = ch.float('T', 250., 500.); P = ch.float('P', 1e4, 1e7)
+    phase = ch.choice('probe.phase', ['s', 'l', 'g'])
+    args = draw_chemical_args(ch, 'c')
+    variant = args['variant']
+    region = f'variant={variant},phase={args.get("phase")},phase_ref={args.get("phase_ref")},N_solutes={"set" if args["N_solutes"] is not None else "unset"}'
+    if variant == 'ref': ctx.cell(f'p:chem:ref={args["phase_ref"]}')
+    else: ctx.cell('p:chem:' + variant)
+    ctx.cell('p:chem:N_solutes=' + ('set' if args['N_solutes'] is not None else 'unset'))
+    ctx.nontriv(['pchem', variant, args['ID'], args.get('phase'), args.get('phase_ref'), args['N_solutes'], phase])
+    c = ctx.call('construct.chemical', make_chemical, args, region=region)
+    # the constructed chemical shows its arguments
+    ctx.check(c.N_solutes == args['N_solutes'] and c.locked_state == args.get('phase')
+              and (args.get('phase_ref') is None or c.phase_ref == args['phase_ref'])
+              and (variant != 'user' or c.MW == args['MW']),
+              f'construct.chemical|{region}|state-mismatch',
+              f'N_solutes {c.N_solutes}, locked_state {c.locked_state}, phase_ref {c.phase_ref}; arguments {args}')
+    st0 = chem_state(c, phase, T, P)
+    o = ctx.call('pickle.chemical', rt, c, region=region)
+    ctx.check(type(o) is tmo.Chemical, f'pickle.chemical|{region}|class-mismatch', type(o).__name__)
+    bad = state_diff(st0, chem_state(o, phase, T, P))
+    ctx.check(not bad, f'pickle.chemical|{region}|state-mismatch', lambda: '; '.join(bad[:4]))
+    bad = state_diff(st0, chem_state(c, phase, T, P))
+    ctx.check(not bad, f'pickle.chemical|{region}|source-modified', lambda: 'pickling changed the chemical: ' + '; '.join(bad[:4]))
+    # the unpickled chemical compiles into a package next to a fresh ordinary one, like the original does
+    if ch.bool('compile'):
+        oname = 'Water' if c.CAS != '7732-18-5' else 'Ethanol'
+        def compiled(x):
+            cs = tmo.Chemicals([x, tmo.Chemical(oname, cache=False)]); cs.compile(skip_checks=True)
+            return (tuple(cs.CASs), [i.N_solutes for i in cs.tuple], np.asarray(cs._heavy_solutes, float).tolist(),
+                    [i.locked_state for i in cs.tuple])
+        a = ctx.call('pickle.chemical.compile', compiled, rt(c), region=region)
+        b = ctx.call('pickle.chemical.compile', compiled, c, region=region)     # compiles (and may write into) the original last
+        ctx.check(a == b, f'pickle.chemical|{region}|compile-mismatch', f'{a} vs {b}')
 
 
 # -- property packages ---------------------------------------------------------
 GAMMAS = ['DortmundActivityCoefficients', 'UNIFACActivityCoefficients', 'IdealActivityCoefficients', 'NISTActivityCoefficients']
 PCFS = ['MockPoyintingCorrectionFactors', 'IdealGasPoyintingCorrectionFactors']
-_thermo_cache = {}
 
 
-def make_thermo(pkg, gamma, pcf, excess, cls, default_mixture=False):
-    key = (pkg, gamma, pcf, excess, cls, default_mixture)
-    th = _thermo_cache.get(key)
-    if th is None:
-        base = thermo_for(pkg)
-        chems = base.chemicals
-        mixture = tmo.IdealMixture.from_chemicals(chems, include_excess_energies=True) if excess else None
-        if cls == 'IdealThermo.ctor':
-            if mixture is None and not default_mixture:
-                mixture = tmo.IdealMixture.from_chemicals(chems)
-            th = tmo.IdealThermo(chems, mixture=mixture)
-        else:
-            th = tmo.Thermo(chems, mixture=mixture, Gamma=getattr(eq, gamma), PCF=getattr(eq, pcf))
-            if cls == 'IdealThermo': th = th.ideal()
-        _thermo_cache[key] = th
-    return th
+def make_thermo(chem_args, gamma, pcf, excess, cls, default_mixture=False):
+    """A fresh package over fresh chemicals, from drawn arguments only."""
+    chems = tmo.Chemicals([make_chemical(a) for a in chem_args])
+    if cls == 'IdealThermo.ctor':
+        mixture = None
+        if excess or not default_mixture:
+            chems.compile()
+            mixture = tmo.IdealMixture.from_chemicals(chems, include_excess_energies=excess)
+        return tmo.IdealThermo(chems, mixture=mixture)
+    mixture = None
+    if excess:
+        chems.compile()
+        mixture = tmo.IdealMixture.from_chemicals(chems, include_excess_energies=True)
+    th = tmo.Thermo(chems, mixture=mixture, Gamma=getattr(eq, gamma), PCF=getattr(eq, pcf))
+    return th.ideal() if cls == 'IdealThermo' else th
 
 
 def thermo_state(th, phase, z, T, P):
-    out = {'cls': type(th).__name__, 'IDs': tuple(th.chemicals.IDs), 'CASs': tuple(th.chemicals.CASs),
-           'MW': np.asarray(th.chemicals.MW, float).tolist(),
+    cs = th.chemicals
+    out = {'cls': type(th).__name__, 'IDs': tuple(cs.IDs), 'CASs': tuple(cs.CASs),
+           'MW': np.asarray(cs.MW, float).tolist(),
            'Gamma': th.Gamma.__name__, 'Phi': th.Phi.__name__, 'PCF': th.PCF.__name__,
            'mixture': type(th.mixture).__name__, 'excess': th.mixture.include_excess_energies,
-           'locked': [c.locked_state for c in th.chemicals.tuple],
-           'phase_ref': [c.phase_ref for c in th.chemicals.tuple],
-           'vle': tuple(c.ID for c in th.chemicals.vle_chemicals), 'lle': tuple(c.ID for c in th.chemicals.lle_chemicals),
+           'locked': [c.locked_state for c in cs.tuple], 'phase_ref': [c.phase_ref for c in cs.tuple],
+           'N_solutes': [c.N_solutes for c in cs.tuple],
+           'vle': tuple(c.ID for c in cs.vle_chemicals), 'lle': tuple(c.ID for c in cs.lle_chemicals),
+           'heavy': tuple(c.ID for c in cs.heavy_chemicals), 'light': tuple(c.ID for c in cs.light_chemicals),
+           'heavy_solutes': np.asarray(cs._heavy_solutes, float).tolist(),
            'ideal_is_ideal': type(th.ideal()).__name__}
+    for k, c in enumerate(cs.tuple):
+        for f in ('Hf', 'Tb', 'Tm', 'formula'):
+            out[f'{k}.{f}'] = getattr(c, f)
     for f in ('H', 'S', 'Cn', 'V', 'mu', 'kappa'):
         try: out[f] = float(getattr(th.mixture, f)(phase, np.array(z, float), T, P))
         except Exception as e: out[f] = 'exc:' + type(e).__name__
     return out
 
 
+def flash_T(th, names, z):
+    """Temperature of a V=0.3 flash at 1 atm on package ``th`` (value or exception type)."""
+    try:
+        s = tmo.Stream(None, flow=np.array(z, float), thermo=th)
+        s.vle(V=0.3, P=101325.)
+        return [float(s.T), np.asarray(vs.dense(s), float).round(9).tolist()]
+    except Exception as e:
+        return 'exc:' + type(e).__name__
+
+
 def prop_pickle_thermo(ch, ctx):
     rt = roundtrip(ch)
     cls = ch.choice('cls', ['Thermo', 'Thermo', 'IdealThermo', 'IdealThermo.ctor'])
-    pkg = ch.choice('pkg', ['A', 'B', 'C', 'D', 'E', 'F', 'G', 'LOCK'])
     gamma = ch.choice('Gamma', GAMMAS); pcf = ch.choice('PCF', PCFS); excess = ch.bool('excess')
     phase = ch.choice('probe.phase', ['l', 'g', 's'])
-    n = len(names_of(pkg))
+    n = ch.int('n', 1, 5)
+    names = ch.subset('names', DB_NAMES, min_size=n, max_size=n)
+    if ch.bool('with_water') and 'Water' not in names: names[0] = 'Water'
+    chem_args = [draw_chemical_args(ch, f'c{k}', names=[nm], allow_user=False) for k, nm in enumerate(names)]
     z = [v + 0.125 for v in ch.flows('z', n)]
     T = ch.float('T', 280., 450.); P = ch.float('P', 1e4, 1e6)
     default_mixture = ch.int('mixture.default', 0, 3) == 0 if (cls == 'IdealThermo.ctor' and not excess) else False
-    ctx.nontriv(['pthermo', cls, pkg, gamma, pcf, excess, phase])
-    th = ctx.call('construct.thermo', make_thermo, pkg, gamma, pcf, excess, cls, default_mixture,
-                  region=f'cls={cls},mixture=' + ('default' if default_mixture else 'given' if cls == 'IdealThermo.ctor' else 'any'))
-    region = f'cls={cls}'
+    any_locked = any(a['variant'] == 'locked' for a in chem_args)
+    any_N = any(a['N_solutes'] is not None for a in chem_args)
+    region = f'cls={cls},locked={int(any_locked)},N_solutes={"set" if any_N else "unset"}'
+    ctx.nontriv(['pthermo', cls, gamma, pcf, excess, phase,
+                 [[a['ID'], a.get('phase'), a.get('phase_ref'), a['N_solutes']] for a in chem_args]])
+    try:
+        th = ctx.call('construct.thermo', make_thermo, chem_args, gamma, pcf, excess, cls, default_mixture,
+                      allowed=(RuntimeError,), region=region + ',mixture=' + ('default' if default_mixture else 'given'))
+    except RuntimeError:
+        ctx.reject('compile refused the chemicals (missing key properties, documented RuntimeError)')
     ctx.cell('p:thermo:' + type(th).__name__)
+    if any_locked: ctx.cell('p:thermo:locked')
+    if any_N: ctx.cell('p:thermo:N_solutes=set')
+    # the package shows the arguments of its chemicals (heavy chemicals without a value get 0 by design)
+    for a, c in zip(chem_args, th.chemicals.tuple):
+        wantN = a['N_solutes'] if a['N_solutes'] is not None else (0 if c in th.chemicals.heavy_chemicals else None)
+        ctx.check(c.N_solutes == wantN and c.locked_state == a.get('phase'), f'construct.thermo|{region}|state-mismatch',
+                  f'{c.ID}: N_solutes {c.N_solutes} (argument {a["N_solutes"]}), locked_state {c.locked_state} (argument {a.get("phase")})')
     st0 = thermo_state(th, phase, z, T, P)
     o = ctx.call('pickle.thermo', rt, th, region=region)
     ctx.check(type(o) is type(th), f'pickle.thermo|{region}|class-mismatch', type(o).__name__)
     st1 = ctx.call('pickle.thermo.state', thermo_state, o, phase, z, T, P, region=region)
-    bad = [k for k in st0 if not same_value(st0[k], st1[k])]
-    ctx.check(not bad, f'pickle.thermo|{region}|state-mismatch',
-              lambda: '; '.join(f'{k}: {st1[k]!r} vs {st0[k]!r}' for k in bad[:4]))
+    bad = state_diff(st0, st1)
+    ctx.check(not bad, f'pickle.thermo|{region}|state-mismatch', lambda: '; '.join(bad[:4]))
+    # every chemical inside the unpickled package equals its original, field by field
+    for c0, c1 in zip(th.chemicals.tuple, o.chemicals.tuple):
+        bad = state_diff(chem_state(c0, phase, T, P), chem_state(c1, phase, T, P))
+        ctx.check(not bad, f'pickle.thermo|{region}|chemical-mismatch', lambda: f'{c0.ID}: ' + '; '.join(bad[:4]))
     # a stream on the unpickled package behaves like one on the original
-    if ch.bool('stream') and pkg != 'LOCK' and phase in 'lg':
+    if ch.bool('stream') and phase in 'lg':
         flow = np.array(z, float)
-        s0 = tmo.Stream(None, flow=flow, phase=phase, T=T, P=P, thermo=th)
-        s1 = tmo.Stream(None, flow=flow, phase=phase, T=T, P=P, thermo=o)
-        a = ctx.call('pickle.thermo.stream', lambda: (s0.H, s0.S, s0.F_mass), region=region)
-        b = ctx.call('pickle.thermo.stream', lambda: (s1.H, s1.S, s1.F_mass), region=region)
-        ctx.check(a == b, f'pickle.thermo|{region}|stream-mismatch', f'{a} vs {b}')
-        if type(th) is tmo.Thermo and phase == 'l':
+        def probe(pk):
+            s = tmo.Stream(None, flow=flow, phase=phase, T=T, P=P, thermo=pk)
+            out = []
+            for f in ('H', 'S', 'F_mass'):
+                try: out.append(float(getattr(s, f)))
+                except Exception as e: out.append('exc:' + type(e).__name__)
+            return out
+        a, b = probe(th), probe(o)
+        ctx.check(all(same_value(i, j) for i, j in zip(a, b)), f'pickle.thermo|{region}|stream-mismatch', f'{a} vs {b}')
+        if type(th) is tmo.Thermo and phase == 'l' and not any_locked:
             g0 = np.asarray(th.Gamma(th.chemicals.tuple)(flow / flow.sum(), T), float)
             g1 = np.asarray(o.Gamma(o.chemicals.tuple)(flow / flow.sum(), T), float)
-            ctx.check(np.array_equal(g0, g1), f'pickle.thermo|{region}|gamma-mismatch', f'{g0.tolist()} vs {g1.tolist()}')
+            ctx.check(np.array_equal(g0, g1, equal_nan=True), f'pickle.thermo|{region}|gamma-mismatch', f'{g0.tolist()} vs {g1.tolist()}')
+    # vapour-liquid equilibrium uses the solvated species of heavy chemicals: same flash on both packages
+    if ch.bool('flash') and len(th.chemicals.vle_chemicals) >= 1:
+        ctx.cell('p:thermo:flash')
+        a, b = flash_T(th, names, z), flash_T(o, names, z)
+        ok = (a == b) if isinstance(a, str) or isinstance(b, str) else (abs(a[0] - b[0]) <= 1e-9 and a[1] == b[1])
+        ctx.check(ok, f'pickle.thermo|{region}|flash-mismatch', f'{a} vs {b}')
 
 
 PROPS = {
     'matrix': (prop_matrix, 10000, 150000),
     'proxy': (prop_proxy, 2000, 30000),
     'substream': (prop_substream, 1500, 20000),
+    'link_views': (prop_link_views, 1500, 20000),
     'links': (prop_links, 1200, 12000),
     'pickle_stream': (prop_pickle_stream, 1500, 12000),
     'pickle_stream_id': (prop_pickle_stream_id, 150, 1500),
